@@ -24,6 +24,8 @@ AUDIT = os.path.join(os.path.dirname(os.path.dirname(os.path.abspath(__file__)))
 
 def run(ctx):
     fx, res = ctx.fx, ctx.res
+    import lemmas
+    lemmas.help_subtree_guard(fx, res, "R18.1")     # what the engine can offer under `help` is what _build put there
     comp = fx.body("clap_complete::engine::complete::complete")
     ppos = fx.body("clap_complete::engine::complete::parse_positional")
 
